@@ -1,4 +1,6 @@
 PROPERTY = dict(
+    claim=False,
+    na_reason='harness built (recursion step of the tree / structure signature tasks in BuildSystem.cpp, harness/C12/h_fanout.cpp) but it does not reach a verdict: the SAT instance exhausts 16 GB after 160 s of symbolic execution of the BuildValue / StringList / std::string decoding code; the hash content, listing validity and exclusion patterns were not attempted. Not claimed rather than claimed on a check that cannot finish.',
     level='other',
     level_text='Reduced scope. What is decided, by bounded model checking of the real DirectoryTreeSignatureTask / DirectoryTreeStructureSignatureTask in BuildSystem.cpp, is the recursion step: given a listing with one child, the child is requested as a node; if the node is a directory (any file information with the directory bit) the task recurses for the child path with the SAME kind of signature key (structure for a directory-structure input, full tree signature for a directory-tree input); a non-directory child triggers no recursion.  The signature hash itself (which fields of a child enter it), listing validity, exclusion patterns and real directory iteration are NOT decided.',
     level_note='Trusted: clang-14 -O1 IR of BuildSystem.cpp, ir2c (validated each run), CBMC+SAT. TaskInterface::request and llvm::sys::path::append are stubs (recorder / POSIX join).',
